@@ -197,7 +197,9 @@ func (s *state) release() {
 		var nilFn func()
 		fnRaw := s.finalizer.Swap(nilFn)
 		if fn, ok := fnRaw.(func()); ok && fn != nil {
+			vhook("state.finalizer.begin", nil)
 			fn()
+			vhook("state.finalizer.end", nil)
 		}
 	}
 }
